@@ -26,7 +26,8 @@ TARGET_SS = "x = G\nd = x + LX\nLX = x(k-1)\nMaxTime = 2\nErr_Tolerance = 0.01"
 TARGETS = {"plain": (TARGET, {}), "user-function": (TARGET_FN, {"fn": lambda v: 2 * v + 1}), "steady-state-init": (TARGET_SS, {})}
 OTHER_FN = "a = 0.5*a + fn(3)\nb = a + y\ny = 2\nx = 7\nMaxTime = 2"
 OTHER = "a = 0.5*a + 3\nb = a + y\ny = 2\nx = 7\nMaxTime = 2"
-OPS = ['other-model', 'other-solver', 'logs-on', 'logs-off', 'trace', 're-solve', 're-parse', 'target-first']
+OPS = ['other-model', 'other-solver', 'logs-on', 'logs-off', 'trace', 're-solve', 're-parse', 'solver-between-parse-and-solve', 'target-first']
+MID = "x = 0.25*LX + 9\nd = x - 1\nLX = x(k-1)\nG = 3\nMaxTime = 2"      # same variable names as the target blocks, other equations
 
 
 def build_other_model():
@@ -119,6 +120,10 @@ def history_case(item):
             elif op == 'target-first':
                 pass
         es.ParseString(TARGET)
+        if 'solver-between-parse-and-solve' in hist:
+            o = EquationSolver(MID)
+            o.AddFunction('fn', lambda v: 100 * v + 7)
+            o.SolveEquation()
         if hist and hist[0] == 're-parse' or 're-parse' in hist:
             # public API only: the documented way to solve is SolveEquation(); exogenous symbolic values are injected first
             pass
@@ -192,7 +197,7 @@ import sys, os, tempfile, shutil
 from fractions import Fraction as F
 from sfc_models.equation_solver import EquationSolver
 from sfc_models.utils import Logger
-from vf.props.c17 import TARGETS, OTHER, OTHER_FN, build_other_model
+from vf.props.c17 import TARGETS, OTHER, OTHER_FN, MID, build_other_model
 hist = %(hist)r
 TARGET, FUNCS = TARGETS[%(tname)r]
 vals = {k: float(F(v)) for k, v in %(vals)r.items()}
@@ -219,7 +224,10 @@ for op in hist:
     elif op == 're-solve': resolve = True
     elif op == 're-parse': es.ParseString(OTHER); es.SolveEquation()
 try:
-    es.ParseString(TARGET); run(es)
+    es.ParseString(TARGET)
+    if 'solver-between-parse-and-solve' in hist:
+        o_ = EquationSolver(MID); o_.AddFunction('fn', lambda v: 100 * v + 7); o_.SolveEquation()
+    run(es)
     if resolve: run(es)
 except ValueError as e:
     print('value error', e); sys.exit(0)
